@@ -391,11 +391,14 @@ Fixpoint addm (qv : var) (ms : list mexpr) (f : cform) : res cform :=
 (* ---------- surface syntax ---------- *)
 Inductive sterm := TVar (n : str) | TFree (nt : str) | TXPath (x : xpath).
 Inductive sin := InDefault | InName (n : str) | InType (t : str).
+(* user-written match expression: bound variable {<ty> name} or a literal token (terminal text or <nonterminal>) *)
+Inductive smelem := SMB (ty name : str) | SMD (tok : str).
 Inductive sform :=
 | SAtom (smt : bool) (id : N) (ts : list sterm)
 | SNot (f : sform)
 | SAnd (a b : sform) | SOr (a b : sform) | SImp (a b : sform) | SIff (a b : sform) | SXor (a b : sform)
-| SQ (fa : bool) (ty : str) (name : option str) (i : sin) (body : sform).
+| SQ (fa : bool) (ty : str) (name : option str) (i : sin) (me : option (list smelem)) (body : sform)
+| SInt (fa : bool) (name : str) (body : sform).
 
 Definition s_start : str := [115;116;97;114;116]%N.
 Definition s_start_nt : str := (60 :: s_start ++ [62])%N.
@@ -435,14 +438,22 @@ Definition register_xpath (used : list str) (st : wst) (x : xpath) : wst * var :
       (MkW (w_fnt st) (w_xp st ++ [(x, v)]), v)
   end.
 
+Definition s_num : str := [78;85;77]%N.   (* Variable.NUMERIC_NTYPE = "NUM" *)
+Definition me_decls (me : option (list smelem)) : list (str * str) :=
+  match me with
+  | None => []
+  | Some l => flat_map (fun e => match e with SMB ty n => [(n, ty)] | SMD _ => [] end) l
+  end.
+
 (* declarations name -> type in the order in which exitQfdFormula registers them (post-order) *)
 Fixpoint decls (f : sform) : list (str * str) :=
   match f with
   | SAtom _ _ _ => []
   | SNot a => decls a
   | SAnd a b | SOr a b | SImp a b | SIff a b | SXor a b => decls a ++ decls b
-  | SQ _ ty (Some n) _ b => decls b ++ [(n, ty)]
-  | SQ _ _ None _ b => decls b
+  | SQ _ ty name _ me b =>
+      decls b ++ me_decls me ++ match name with Some n => [(n, ty)] | None => [] end
+  | SInt _ n b => decls b ++ [(n, s_num)]
   end.
 
 Definition get_var (d : list (str * str)) (n : str) : res var :=
@@ -472,7 +483,8 @@ Fixpoint walk (used : list str) (d : list (str * str)) (st : wst) (f : sform) : 
   match f with
   | SAtom smt id ts =>
       bind (terms used d st ts) (fun '(st1, vs) =>
-        Ok (st1, if smt then FSmt (MkAtom false id vs) else FSPred [id] (map PVar vs)))
+        Ok (st1, if smt then FSmt (MkAtom false id vs)
+                 else if (id <? 100)%N then FSPred [id] (map PVar vs) else FSemPred [id] (map PVar vs)))
   | SNot a => bind (walk used d st a) (fun '(st1, a') => Ok (st1, f_neg a'))
   | SAnd a b =>
       bind (walk used d st a) (fun '(st1, a') =>
@@ -489,8 +501,12 @@ Fixpoint walk (used : list str) (d : list (str * str)) (st : wst) (f : sform) : 
   | SXor a b =>
       bind (walk used d st a) (fun '(st1, a') =>
       bind (walk used d st1 b) (fun '(st2, b') => Ok (st2, f_xor a' b')))
-  | SQ fa ty name i body =>
-      let st0 := match name with None => fst (register_free used st ty) | Some _ => st end in
+  | SInt fa n body =>
+      bind (walk used d st body) (fun '(st1, b') =>
+      bind (get_var d n) (fun v => Ok (st1, (if fa then FForallInt else FExistsInt) v b')))
+  | SQ fa ty name i me body =>
+      (* enterQfdFormula is only hooked to the quantifier forms WITHOUT match expression *)
+      let st0 := match name, me with None, None => fst (register_free used st ty) | _, _ => st end in
       bind (walk used d st0 body) (fun '(st1, b') =>
       bind (match name with
             | Some n => bind (get_var d n) (fun v => Ok (st1, v))
@@ -504,7 +520,12 @@ Fixpoint walk (used : list str) (d : list (str * str)) (st : wst) (f : sform) : 
             | InType t => if str_eqb t s_start_nt then Ok (st3, start_c) else Ok (register_free used st3 t)
             | InDefault => Ok (st3, start_c)
             end) (fun '(st4, w) =>
-      Ok (st4, (if fa then FForall else FExists) v (InVar w) None b'))))
+      bind (match me with
+            | None => Ok None
+            | Some l => bind (mapM (fun e => match e with SMB _ n => get_var d n | SMD tok => Ok (dummy tok) end) l)
+                             (fun es => Ok (Some (MkMexpr es [])))
+            end) (fun m =>
+      Ok (st4, (if fa then FForall else FExists) v (InVar w) m b')))))
   end.
 
 (* ---------- closing over free nonterminals ---------- *)
@@ -610,8 +631,9 @@ Fixpoint sform_names (f : sform) : list str :=
   | SAtom _ _ _ => []
   | SNot a => sform_names a
   | SAnd a b | SOr a b | SImp a b | SIff a b | SXor a b => sunion (sform_names a) (sform_names b)
-  | SQ _ _ (Some n) _ b => sunion [n] (sform_names b)
-  | SQ _ _ None _ b => sform_names b
+  | SQ _ _ name _ me b =>
+      sunion (match name with Some n => [n] | None => [] end) (sunion (map fst (me_decls me)) (sform_names b))
+  | SInt _ _ b => sform_names b
   end.
 
 Fixpoint xp_size (xp : list (xpath * var)) : nat :=
